@@ -122,7 +122,7 @@ type ContractFile struct {
 	Axioms    []*Clause
 }
 
-var headRe = regexp.MustCompile(`^(func|iface|assume|type|spec|uninterpreted|axiom|lemma|sweep)\b\s*(.*)$`)
+var headRe = regexp.MustCompile(`^(func|iface|assume|type|spec|uninterpreted|axiom|lemma|sweep|schema|endschema)\b\s*(.*)$`)
 var clauseKw = map[string]bool{"assumes": true, "defines": true, "requires": true, "ensures": true, "panics": true, "split": true, "loop": true, "modifies": true,
 	"immutable": true, "invariant": true, "view": true, "ghost": true, "mode": true, "inline": true, "refines": true,
 	"pure": true, "property": true, "nopanic": true, "noreturn": true, "trusted": true, "safety": true, "havoc": true, "fresh": true, "opt": true, "assert": true, "region": true, "trust": true}
@@ -177,6 +177,47 @@ func ParseContractFile(path, pkgPath string) (cf *ContractFile, err error) {
 		} else {
 			panic(fmt.Errorf("%s:%d: continuation without clause", path, i+1))
 		}
+	}
+	// schema blocks: "schema N in 1..64; E in LE=LittleEndian, BE=BigEndian" ... "endschema" are expanded
+	// textually, one copy of the enclosed contracts per combination ({N}, {E} = key, {E.v} = value,
+	// {N/2} {N-1} ... = constant arithmetic on a numeric variable)
+	{
+		var out []lline
+		for i := 0; i < len(lines); i++ {
+			if !strings.HasPrefix(lines[i].text, "schema ") && lines[i].text != "schema" {
+				if lines[i].text == "endschema" {
+					panic(fmt.Errorf("%s:%d: endschema without schema", path, lines[i].no))
+				}
+				out = append(out, lines[i])
+				continue
+			}
+			where := fmt.Sprintf("%s:%d", path, lines[i].no)
+			vars := parseSchemaVars(strings.TrimSpace(strings.TrimPrefix(lines[i].text, "schema")), where)
+			j := i + 1
+			for j < len(lines) && lines[j].text != "endschema" {
+				j++
+			}
+			if j == len(lines) {
+				panic(fmt.Errorf("%s: schema without endschema", where))
+			}
+			body := lines[i+1 : j]
+			var rec func(k int, env map[string][2]string)
+			rec = func(k int, env map[string][2]string) {
+				if k == len(vars) {
+					for _, b := range body {
+						out = append(out, lline{schemaSubst(b.text, env, where), b.no})
+					}
+					return
+				}
+				for _, kv := range vars[k].vals {
+					env[vars[k].name] = kv
+					rec(k+1, env)
+				}
+			}
+			rec(0, map[string][2]string{})
+			i = j
+		}
+		lines = out
 	}
 	var cur *Contract
 	var curT *TypeSpec
@@ -462,6 +503,81 @@ func ParseContractFile(path, pkgPath string) (cf *ContractFile, err error) {
 		}
 	}
 	return cf, nil
+}
+
+type schemaVar struct {
+	name string
+	vals [][2]string // key, value
+}
+
+func parseSchemaVars(s, where string) []schemaVar {
+	var out []schemaVar
+	for _, part := range strings.Split(s, ";") {
+		part = strings.TrimSpace(part)
+		k := strings.Index(part, " in ")
+		if k < 0 {
+			panic(fmt.Errorf("%s: schema needs 'V in ...'", where))
+		}
+		v := schemaVar{name: strings.TrimSpace(part[:k])}
+		for _, item := range strings.Split(part[k+4:], ",") {
+			item = strings.TrimSpace(item)
+			if r := strings.Split(item, ".."); len(r) == 2 {
+				lo, e1 := strconv.Atoi(strings.TrimSpace(r[0]))
+				hi, e2 := strconv.Atoi(strings.TrimSpace(r[1]))
+				if e1 != nil || e2 != nil {
+					panic(fmt.Errorf("%s: schema range", where))
+				}
+				for x := lo; x <= hi; x++ {
+					v.vals = append(v.vals, [2]string{strconv.Itoa(x), strconv.Itoa(x)})
+				}
+				continue
+			}
+			if e := strings.Index(item, "="); e >= 0 {
+				v.vals = append(v.vals, [2]string{strings.TrimSpace(item[:e]), strings.TrimSpace(item[e+1:])})
+			} else {
+				v.vals = append(v.vals, [2]string{item, item})
+			}
+		}
+		if len(v.vals) == 0 {
+			panic(fmt.Errorf("%s: schema variable %s has no values", where, v.name))
+		}
+		out = append(out, v)
+	}
+	return out
+}
+
+var schemaRefRe = regexp.MustCompile(`\{([A-Za-z]+)(\.v|[-+*/][0-9]+)?\}`)
+
+func schemaSubst(text string, env map[string][2]string, where string) string {
+	return schemaRefRe.ReplaceAllStringFunc(text, func(m string) string {
+		g := schemaRefRe.FindStringSubmatch(m)
+		kv, ok := env[g[1]]
+		if !ok {
+			panic(fmt.Errorf("%s: schema variable %s not bound", where, g[1]))
+		}
+		switch {
+		case g[2] == "":
+			return kv[0]
+		case g[2] == ".v":
+			return kv[1]
+		}
+		x, err := strconv.Atoi(kv[0])
+		y, _ := strconv.Atoi(g[2][1:])
+		if err != nil {
+			panic(fmt.Errorf("%s: arithmetic on non-numeric schema variable %s", where, g[1]))
+		}
+		switch g[2][0] {
+		case '+':
+			x += y
+		case '-':
+			x -= y
+		case '*':
+			x *= y
+		case '/':
+			x /= y
+		}
+		return strconv.Itoa(x)
+	})
 }
 
 func parenGroups(s string) []string {
